@@ -331,7 +331,7 @@ class Ctx:
         procs = []
         for si, sh in enumerate(shards):
             lines = ["From Coq Require Import ZArith List String Bool Ascii.", "Import ListNotations.",
-                     "Open Scope nat_scope."]
+                     "Open Scope nat_scope.", "Set Printing Depth 1000000.", "Set Printing Width 200."]
             lines += ["Require Import %s." % r for r in requires]
             lines.append(prelude)
             lines.append("Definition cases : list (nat * (%s) * (%s)) := [" % ty)
@@ -341,6 +341,8 @@ class Ctx:
                          "negb (%s (%s (snd (fst c))) (snd c))) cases)." % (eqb, model_fn))
             lines.append('Definition tag := "MISMATCH"%string.')
             lines.append("Eval vm_compute in (tag, List.length cases, bad).")
+            lines.append('Definition tag2 := "NBAD"%string.')
+            lines.append("Eval vm_compute in (tag2, List.length bad).")
             p = os.path.join(self.tmp, "cases_%d.v" % si)
             with open(p, "w") as fh:
                 fh.write("\n".join(lines) + "\n")
@@ -359,7 +361,12 @@ class Ctx:
             if not m:
                 errors.append("unparsed coqc output: " + out[-2000:])
                 return
-            bad.extend(si * shard + int(x) for x in re.findall(r"\d+", m.group(2)))
+            found = [int(x) for x in re.findall(r"\d+", m.group(2))]
+            m2 = re.search(r'\("NBAD"%string,\s*(\d+)', out)
+            if not m2 or int(m2.group(1)) != len(found):
+                errors.append("mismatch list was elided by the printer: %s printed, %s counted" % (
+                    len(found), m2.group(1) if m2 else "?"))
+            bad.extend(si * shard + x for x in found)
         while todo or running:
             while todo and len(running) < 8:
                 si, p = todo.pop(0)
